@@ -271,6 +271,58 @@ CHECKS = {
              "(float<->integer step: paper argument of DESIGN.md §5 C10); hits on a victim that an earlier hit of "
              "the same call already killed are listed and cost ammunition but change nothing - the property's 'each "
              "hit lowers the health by exactly the strength' is formalised as 'each hit taken while alive'."),
+    "C14": dict(
+        text="Lean 4 theorem C14_trace: for every inner simulation (any state/action/observation/info type) whose "
+             "getters satisfy the frame conditions Lawful, every super-agent mapping (a mapping that is not a partition "
+             "of learning agents is rejected by the modelled constructor), every initial state and every history of "
+             "reset / step / get_obs / get_reward / get_done / get_all_done / get_info calls, the session of the model "
+             "of SuperAgentWrapper (a functor superSim on SimIface: inner state + the two last-reported sets, every "
+             "effectful inner read threaded in Python's evaluation order) satisfies the decidable trace predicate "
+             "specC14, judged only on results and on ghost observations of the inner simulation: mask[c] = not done c; "
+             "the entry of c is a real inner read of this call until and including the first report after c became "
+             "done and the declared null observation (no inner read) afterwards; the reward is the sum of what was "
+             "pending for covered agents not yet finally counted, which are emptied, nothing after the final count; "
+             "done iff all covered done; the inner step receives exactly the actions of not-done covered agents and "
+             "the uncovered actions unchanged; uncovered getters equal the inner getters; covered ids are rejected. "
+             "Readings c14_* and mask_iff / obs_handover / reward_sum / done_iff_all / actions_filtered / "
+             "uncovered_transparent state the clauses for every history; c14_reward_conservation telescopes the "
+             "ledger along any trace satisfying the predicate. Functor lemma superSim_lawful / superSim_WF: a wrapped "
+             "lawful simulation is lawful, so C01, C07, C15, C16 hold of every wrapped simulation (C01_wrapped ...). "
+             "Tie: the real SuperAgentWrapper over the scripted stub, call by call (every partition of <=3 (thorough "
+             "<=4) learning agents x every done schedule x three call patterns x two episodes, then seeded random "
+             "sessions incl. rejected mappings, covered ids, ill-shaped actions, calls before reset) and under the "
+             "real AllStep/TurnBased managers against the manager model instantiated on superSim (stubSim); traces "
+             "must equal the model's and specC14 (specC01/specC07 for manager sessions) is evaluated by the driver on "
+             "the implementation's trace; membership of super observations and unravelled actions in the gymnasium "
+             "spaces is checked on the real side. Open finding S1: a declared null observation that is falsy in "
+             "Python (e.g. 0) is ignored by _get_null_obs (excluded from the theorem's domain by NullTruthy, "
+             "reported as KNOWN-FINDING).",
+        design="§5 C14", technique="Lean 4 proof (loop characterisations over a lawful inner simulation, invariant "
+                                   "linking the wrapper state to a ghost state folded from the trace, induction over "
+                                   "call histories; functor lemma for the manager family) + differential "
+                                   "correspondence with the real wrapper, call-level and under the real managers",
+        note=NOTE + " C14 specifically: membership of the super observation in the gymnasium Dict space is a run-time "
+             "check on the real side, not a Lean theorem; the one-time warning of _get_null_obs is not modelled; unknown "
+             "agent ids and actions outside the action space are outside the modelled domain."),
+    "C20": dict(
+        text="Lean 4 theorems over the model of CommunicationHandshakeWrapper as a functor on any simulation whose "
+             "get_obs takes a fusion row (Model/Comm.lean: receive processing of the acting agents against the current "
+             "buffer, buffer cleared, wrapped step with the original action entries, send processing; exceptions "
+             "modelled): for every wrapped simulation, number of agents and history of resets, steps (any subset of "
+             "acting agents, any bits) and get_obs calls - buffer_iff / buffer_after_step (buffer[x][y] after a step iff y "
+             "acted in that step and chose to send to x), fuse_iff (by induction over the history: fuse[x][y] iff at x's "
+             "most recent action since the last reset y's message was pending and x chose to receive it; false before "
+             "x's first action; idle agents keep their row), cleared_each_step_and_reset, inner_gets_original_actions, "
+             "comm_spaces_mem / augAct_wf (augmented spaces as key-set facts), C20_trace (the model's call trace passes "
+             "the judge specC20, whose expectations are computed from the call history alone), comm_lawful / comm_WF / "
+             "C01_applies_to_comm (a wrapped simulation again satisfies the managers' frame conditions, so the manager "
+             "theorems apply to it), with readings of the judge. Tie: the real wrapper over a fusion-aware scripted stub "
+             "(records the fusion_matrix and the action dict it is handed), exhaustive bit patterns on small scopes, "
+             "seeded random histories, an out-of-domain stream and the wrapper under the real AllStepManager; every call's "
+             "result, ghost log and both dictionaries must equal the model's and specC20 is evaluated by the driver on the "
+             "implementation's trace; space membership of observations and actions is checked on the real side.",
+        design="§5 C20", technique="Lean 4 proof (loop characterisations, history invariant by induction, functor lemma) + "
+                                   "differential correspondence of the hand-written model with the real wrapper"),
 }
 
 PENDING = {
